@@ -48,12 +48,23 @@ class Bus:
         if tmo >= 0:
             limits += '<limit name="reply_timeout">%d</limit>' % tmo
         self.d = rawbus.Daemon(exe, policy=RESTRICTIVE if restrictive else rawbus.ALLOW_ALL, limits=limits)
-        self.obs = self.d.connect()
+        self.obs = self.connect()
         self.obs.serial = HIGH
         self.obs.hello()
         r = self.obs.call("AddMatch", "s", ("type='signal',sender='org.freedesktop.DBus',member='NameOwnerChanged'",))
         if r is None or r.mtype != METHOD_RETURN:
             raise IOError("observer AddMatch failed: %r" % (r,))
+
+    def connect(self, **kw):
+        # Daemon() returns once the socket path exists; listen() may not have happened yet
+        t_end = time.time() + 10
+        while True:
+            try:
+                return self.d.connect(**kw)
+            except (ConnectionRefusedError, FileNotFoundError):
+                if time.time() > t_end or not self.d.alive():
+                    raise
+                time.sleep(0.005)
 
     def wait_gone(self, unique, timeout=10.0):
         t_end = time.time() + timeout
@@ -164,7 +175,7 @@ def run_history(bus, events, budget_ms=None):
         for tok in events:
             f = tok.split(".")
             if f[0][0] == "C":
-                c = bus.d.connect(want_fds=(f[0][1] == "1"))
+                c = bus.connect(want_fds=(f[0][1] == "1"))
                 c.serial = HIGH
                 r = c.hello()
                 if r is None or c.unique is None:
